@@ -763,6 +763,11 @@ struct WorldT : PolicyOps {
         std::free(decoded_block);
         decoded_block = nullptr;
         decoded_size = 0;
+#ifndef YS_NO_GLUE
+        if constexpr (kStd) {
+            glue_new_generator<P>(); // the generator object of a new process
+        }
+#endif
         for (int sl = 0; sl < NSLOTS; ++sl)
             if (auto a = Slots::vt[sl]->st_slots()) {
                 std::memset(a, 0, 8 * sizeof(std::size_t));
@@ -773,13 +778,14 @@ struct WorldT : PolicyOps {
 
     // ---- C12: the static-offset generator and its "compiled" output
 
-    std::string gen_offsets(int slot) override {
+    std::string gen_offsets(int slot, bool fresh_generator) override {
 #ifndef YS_NO_GLUE
         if constexpr (kStd) {
-            return glue_offsets<P>(slot);
+            return glue_offsets<P>(slot, fresh_generator);
         }
 #endif
         (void)slot;
+        (void)fresh_generator;
         return "";
     }
 
